@@ -59,6 +59,7 @@ def _call(planet, fn, variant, jde):
     return f(e, bool(variant))
 
 
+H_SLOPE = 0.02           # days: half-width of the central difference used for slopes
 J_M2000 = 990557.5      # -2000-01-01 (Julian)
 J_4000 = 3182029.5      # 4000-01-01
 
@@ -155,8 +156,10 @@ def _helio(planet, jde):
     return float(L), float(B), float(R)
 
 
-def gen_events(planet, fn, variant, seed, n):
-    """n returned events spread over -2000..4000; five-point stencil of the relevant quantity"""
+def gen_events(planet, fn, variant, seed, n, window=None, stride=1):
+    """n returned events spread over -2000..4000; five-point stencil of the relevant quantity.
+    window = (j0, j1): instead, EVERY event of that window is asked for (queries at half-period steps: a refusal is a
+    totality violation) and every stride-th distinct one is judged against the positions"""
     from pymeeus.Epoch import Epoch
     if planet == "Earth" and fn == "passage_nodes":
         return      # the Earth's heliocentric latitude of date is identically ~0: the event has no VSOP87 counterpart
@@ -166,15 +169,27 @@ def gen_events(planet, fn, variant, seed, n):
     rng = random.Random("events/%s/%s/%s/%s" % (seed, planet, fn, variant))
     seen = set()
     tries = 0
-    while len(seen) < n and tries < 5 * n:
+    qs = None
+    if window is not None:
+        qs, q = [], max(J_M2000 + P, window[0])
+        while q <= min(J_4000 - P, window[1]):
+            qs.append(q)
+            q += P / 2.0
+        qs = iter(qs)
+    while window is not None or (len(seen) < n and tries < 5 * n):
         tries += 1
-        q = rng.uniform(J_M2000 + P, J_4000 - P)
+        if window is not None:
+            q = next(qs, None)
+            if q is None:
+                break
+        else:
+            q = rng.uniform(J_M2000 + P, J_4000 - P)
         qy = int(Epoch(q).get_date()[0])
         try:
             r = _call(planet, fn, variant, q)
         except Exception as ex:
             yield {"k": "ev", "f": name, "site": name, "fn": fn, "v": variant, "kind": "none", "oc": _oc(ex), "qf": q, "y": qy,
-                   "s": [BAD] * 5, "rep": BAD, "aux": fx(0), "tol": fx(tol), "rf": 0.0}
+                   "s": [BAD] * 5, "rep": BAD, "aux": fx(0), "tol": fx(tol), "rf": 0.0, "dl": fx(0), "dr": fx(0)}
             continue
         rep = 0.0
         if isinstance(r, tuple):
@@ -185,8 +200,12 @@ def gen_events(planet, fn, variant, seed, n):
         if key in seen:
             continue
         seen.add(key)
+        if window is not None and len(seen) % stride:
+            continue
         ts = [rj - 2 * tol, rj - tol, rj, rj + tol, rj + 2 * tol]
         aux = 0.0
+        slope = None
+        dl = dr = 0.0
         try:
             if fn in ("inferior_conjunction", "superior_conjunction", "conjunction", "opposition"):
                 target = 180.0 if fn == "opposition" else 0.0
@@ -205,6 +224,7 @@ def gen_events(planet, fn, variant, seed, n):
             elif fn in ("eastern_elongation", "western_elongation"):
                 s = [_geo_lon(planet, t)[1] for t in ts]
                 kind = "elong"
+                slope = lambda t: _geo_lon(planet, t + H_SLOPE)[1] - _geo_lon(planet, t - H_SLOPE)[1]
                 pl, _ = _geo_lon(planet, rj)
                 sl, _ = _sun_lon(rj)
                 aux = _wrap180(pl - sl)          # > 0: east of the Sun
@@ -212,18 +232,30 @@ def gen_events(planet, fn, variant, seed, n):
                 base = _geo_lon(planet, rj)[0]
                 s = [_wrap180(_geo_lon(planet, t)[0] - base) for t in ts]
                 kind = "station"
+                slope = lambda t: _wrap180(_geo_lon(planet, t + H_SLOPE)[0] - _geo_lon(planet, t - H_SLOPE)[0])
             elif fn == "perihelion_aphelion":
                 s = [_helio(planet, t)[2] for t in ts]
                 kind = "radius"
+                slope = lambda t: _helio(planet, t + H_SLOPE)[2] - _helio(planet, t - H_SLOPE)[2]
             else:
                 s = [_helio(planet, t)[1] for t in ts]
                 kind = "node"
+            if slope is not None:
+                # extremum kinds: the change of the quantity over +-H_SLOPE days at both ends of the accuracy window
+                # (the extremum lies within tol of the returned instant iff the slope changes sign across the window)
+                dl, dr = slope(rj - tol), slope(rj + tol)
         except Exception as ex:
             yield {"k": "ev", "f": name, "site": name, "fn": fn, "v": variant, "kind": "none", "oc": "pos:" + _oc(ex), "qf": q, "y": qy,
-                   "s": [BAD] * 5, "rep": BAD, "aux": fx(0), "tol": fx(tol), "rf": rj}
+                   "s": [BAD] * 5, "rep": BAD, "aux": fx(0), "tol": fx(tol), "rf": rj, "dl": fx(0), "dr": fx(0)}
             continue
         yield {"k": "ev", "f": name, "site": name, "fn": fn, "v": variant, "kind": kind, "oc": "ok", "qf": q, "y": qy, "rf": rj,
-               "s": [fx(v) for v in s], "rep": fx(rep), "aux": fx(aux), "tol": fx(tol), "sf": s}
+               "s": [fx(v) for v in s], "rep": fx(rep), "aux": fx(aux), "tol": fx(tol), "sf": s, "dl": fx(dl), "dr": fx(dr),
+               "dlf": dl, "drf": dr}
+
+
+def gen_all(planet, fn, variant, seed, window, stride):
+    for ev in gen_events(planet, fn, variant, seed, 0, window=tuple(window), stride=stride):
+        yield ev
 
 
 def gen_group(items, seed, eras, per_era, edge, nev):
